@@ -156,6 +156,23 @@ PopsProbability == (pc = "fdone" /\ rp # None) =>
 PopsDefinedIffReactive == pc = "fdone" =>
   ((rp # None) <=> (\E i \in Idx : RPos(q[i]) /\ RLt(q[i], ROne)))
 
+(* Homogeneity in the populations handed in by the caller: the statements above use the   *)
+(* populations only as the factor of row i, so for every c > 0                            *)
+(*    reactive_fluxes(T, A, B, c.p) = c . reactive_fluxes(T, A, B, p),  net_fluxes alike,  *)
+(*    reactive_populations(T, A, B, c.p) = reactive_populations(T, A, B, p).               *)
+(* Checked here for some c on every chain in scope and in LineFlux.tla for c = 2^-30 (over *)
+(* BigNat); the driver replays every printed case also with populations 2^-30 . pi, where  *)
+(* every flux is below 1e-8 (a power of two scales binary floating point exactly).         *)
+ScaleSet == {<<1, 2>>, <<3, 1>>, <<1, 64>>}
+FluxWith(p, i, j) == IF i = j THEN RZero ELSE RMul(RMul(T(i, j), RMul(p[i], qm[i])), q[j])
+PopulationScaling == pc = "fdone" => \A cc \in ScaleSet :
+  LET p == V([i \in Idx |-> RMul(cc, pi[i])])
+      d == V([i \in Idx |-> RMul(p[i], RMul(q[i], qm[i]))])
+  IN /\ \A i, j \in Idx :
+          /\ FluxWith(p, i, j) = RMul(cc, fl[i][j])
+          /\ RMax(RZero, RSub(FluxWith(p, i, j), FluxWith(p, j, i))) = RMul(cc, net[i][j])
+     /\ (rp # None => \A i \in Idx : RDiv(d[i], RSum(d)) = rp[i])
+
 FRatOK == /\ (fl # None => \A i, j \in Idx : Safe(fl[i][j]))
           /\ (net # None => \A i, j \in Idx : Safe(net[i][j]))
           /\ (rp # None => \A i \in Idx : Safe(rp[i]))
